@@ -80,6 +80,11 @@ static long g_total;
 static long g_budget = -1;
 static long g_unmodelled;
 static struct { int armed; int cls; long nth; int err; int persist; } g_fault;
+/* persist == 2 on class READ: the nth read is served SHORT (half of what was asked), and the
+   read that follows it on any traced fd fails with the errno ("bad sector" model). */
+static int g_short_pending;      /* the current read must be shortened */
+static int g_fail_next_read;     /* errno for the read following a shortened one, or 0 */
+static long g_delivered;         /* number of injected errors actually returned to the caller */
 
 /* ---- real functions ---------------------------------------------------------- */
 #define REAL(name) static __typeof__(name) *real_##name
@@ -150,8 +155,18 @@ static int account(int cls)
         real_write(2, msg, sizeof msg - 1);
         _exit(97);
     }
+    if (cls == CL_READ && g_fail_next_read) {
+        int e = g_fail_next_read;
+        g_fail_next_read = 0;
+        g_delivered++;
+        return e;
+    }
     if (g_fault.armed && g_fault.cls == cls) {
-        if (n == g_fault.nth || (g_fault.persist && n > g_fault.nth)) return g_fault.err;
+        if (g_fault.persist == 2) {
+            if (cls == CL_READ && n == g_fault.nth) g_short_pending = 1;
+            return 0;
+        }
+        if (n == g_fault.nth || (g_fault.persist && n > g_fault.nth)) { g_delivered++; return g_fault.err; }
     }
     return 0;
 }
@@ -178,6 +193,7 @@ void iot_reset(void)
     g_alen = 0; g_total = 0; g_budget = -1; g_unmodelled = 0;
     memset(g_counts, 0, sizeof g_counts);
     memset(&g_fault, 0, sizeof g_fault);
+    g_short_pending = 0; g_fail_next_read = 0; g_delivered = 0;
 }
 /* Also forget every path and fd association: only when the library holds no open fd. */
 void iot_reset_all(void)
@@ -201,6 +217,7 @@ void iot_budget(long max_calls) { g_budget = max_calls; }
 void iot_counts(long *out) { memcpy(out, g_counts, sizeof g_counts); }
 long iot_total(void) { return g_total; }
 long iot_unmodelled(void) { return g_unmodelled; }
+long iot_delivered(void) { return g_delivered; }
 
 /* ---- open family ----------------------------------------------------------------- */
 static int do_open(const char *fname, int (*fn)(const char *, int, ...), const char *path,
@@ -313,7 +330,13 @@ ssize_t read(int fd, void *buf, size_t n)
     pthread_mutex_lock(&g_mu);
     off = real_lseek(fd, 0, SEEK_CUR);
     inj = account(CL_READ);
-    if (inj) { r = -1; err = inj; } else { r = real_read(fd, buf, n); err = r < 0 ? errno : 0; }
+    if (inj) { r = -1; err = inj; }
+    else {
+        size_t want = n;
+        if (g_short_pending && n > 1) { want = n / 2; }
+        r = real_read(fd, buf, want); err = r < 0 ? errno : 0;
+        if (g_short_pending) { g_short_pending = 0; if (r > 0) g_fail_next_read = g_fault.err; }
+    }
     emit(EV_READ, fd, g_fdpath[fd] - 1, err, r, (uint64_t)off, n, 0, 0, 0);
     pthread_mutex_unlock(&g_mu);
     errno = err;
